@@ -228,7 +228,328 @@ Qed.
 (* sums over the thread list *)
 Lemma sum_ge {A} (f : A -> nat) (l : list A) t x : nth_error l t = Some x -> (f x <= list_sum (map f l))%nat.
 Proof.
-  revert t; induction l as [|h r IH]; destruct t; cbn; intros H; try discriminate.
-  - inversion H; subst. Show. lia.
+  revert t; induction l as [|h r IH]; destruct t; simpl; intros H; try discriminate.
+  - inversion H; subst. lia.
   - specialize (IH _ H). lia.
 Qed.
+
+(* ====================================================================== *)
+(* C. the invariant                                                        *)
+(* ====================================================================== *)
+Definition dummy : loc := Loc [] Idle (None, None) None.
+Definition lof (ls : list loc) (u : nat) : loc := nth u ls dummy.
+Definition pcof (ls : list loc) (u : nat) : pc := at_ (lof ls u).
+Lemma lof_upd ls t l l' u : nth_error ls t = Some l ->
+  lof (upd ls t l') u = if Nat.eqb u t then l' else lof ls u.
+Proof.
+  intros H. unfold lof. destruct (Nat.eqb_spec u t) as [->|Hne].
+  - apply nth_error_nth. apply (nth_upd_eq _ _ _ _ H).
+  - pose proof (nth_upd_ne ls t u l' (not_eq_sym Hne)) as E.
+    destruct (nth_error ls u) as [x|] eqn:Eu.
+    + rewrite (nth_error_nth _ _ _ Eu). apply nth_error_nth. congruence.
+    + rewrite !nth_overflow; auto.
+      * apply nth_error_None. exact Eu.
+      * apply nth_error_None. congruence.
+Qed.
+Lemma lof_at ls t l : nth_error ls t = Some l -> lof ls t = l.
+Proof. intros H. unfold lof. apply nth_error_nth. exact H. Qed.
+Lemma pcof_upd ls t l l' u : nth_error ls t = Some l ->
+  pcof (upd ls t l') u = if Nat.eqb u t then at_ l' else pcof ls u.
+Proof. intros H. unfold pcof. rewrite (lof_upd _ _ _ _ _ H). destruct (Nat.eqb u t); reflexivity. Qed.
+Lemma pcof_at ls t l : nth_error ls t = Some l -> pcof ls t = at_ l.
+Proof. intros H. unfold pcof. rewrite (lof_at _ _ _ H). reflexivity. Qed.
+Arguments pcof : simpl never.
+Arguments lof : simpl never.
+
+(* pcs inside the critical section *)
+Definition holds (p : pc) : bool := match p with Call _ _ | Unlock _ _ _ | XUnlock _ => true | _ => false end.
+Definition is_some {A} (x : option A) : bool := match x with Some _ => true | None => false end.
+(* where the in-flight pointer of a thread may be non-null *)
+Definition held_ok (p : pc) (h : option ptr) : bool :=
+  match p with
+  | SLock o => match new_arg o with Some _ => is_some h | None => negb (is_some h) end
+  | Unlock o _ _ => match dst_slot o with Some _ => true | None => negb (is_some h) end
+  | _ => negb (is_some h)
+  end.
+
+(* the sequential history recorded by the ghost log *)
+Definition st0 : mstate := MS [] [] 0.
+Fixpoint replay (thr : list Z) (s : mstate) (lg : list entry) : mstate :=
+  match lg with
+  | [] => s
+  | e :: r => replay thr (fst (apply_op thr (e_op e) (e_arg e) s)) r
+  end.
+Fixpoint legal (thr : list Z) (s : mstate) (lg : list entry) : Prop :=
+  match lg with
+  | [] => True
+  | e :: r => snd (apply_op thr (e_op e) (e_arg e) s) = e_ret e /\ legal thr (fst (apply_op thr (e_op e) (e_arg e) s)) r
+  end.
+Lemma replay_app thr s a b : replay thr s (a ++ b) = replay thr (replay thr s a) b.
+Proof. revert s; induction a as [|e r IH]; intros s; cbn; auto. Qed.
+Lemma legal_app thr s a b : legal thr s (a ++ b) <-> legal thr s a /\ legal thr (replay thr s a) b.
+Proof. revert s; induction a as [|e r IH]; intros s; cbn; [tauto|]. rewrite IH. tauto. Qed.
+
+Definition cur (g : glob) : mstate := MS (omap g) (tmap g) (calls g).
+Definition hist (g : glob) : mstate := replay (throws g) st0 (log g).
+(* what the owner of the mutex has done so far, in terms of the method run alone on the state
+   the log describes *)
+Definition lin_pc (g : glob) (p : pc) : Prop :=
+  match p with
+  | Unlock o a r => apply_op (throws g) o a (hist g) = (cur g, Some r)
+  | XUnlock o => apply_op (throws g) (OP o) null_ptr (hist g) = (cur g, None)
+  | Call o k =>
+    m_o (hist g) = omap g /\ m_t (hist g) = tmap g /\
+    exists pre p suf, omap g = pre ++ (k, p) :: suf /\
+      pscan (throws g) o (omap g) (tmap g) ((k, p) :: suf) (calls g) =
+      pscan (throws g) o (omap g) (tmap g) (omap g) (m_calls (hist g))
+  | _ => True
+  end.
+
+Record Inv (g : glob) (ls : list loc) : Prop := {
+  I_owner : forall u, holds (pcof ls u) = true -> mtx g = Some u;
+  I_held  : forall a, mtx g = Some a -> holds (pcof ls a) = true;
+  I_hs    : forall u, held_ok (pcof ls u) (held (lof ls u)) = true;
+  I_so    : sorted (omap g);
+  I_st    : sorted (tmap g);
+  I_rc    : forall id, rc_of (heap g) id = (cnt_o id (omap g) + list_sum (map (cnt_loc id) ls))%nat;
+  I_nf    : faulted g = false;
+  I_free  : mtx g = None -> cur g = hist g;
+  I_lin   : forall u, lin_pc g (pcof ls u);
+  I_legal : legal (throws g) st0 (log g)
+}.
+
+Arguments rc_inc : simpl never.
+Arguments rc_dec : simpl never.
+Arguments inc_opt : simpl never.
+Arguments dec_opt : simpl never.
+Arguments apply_sop : simpl never.
+Arguments sop_rc : simpl never.
+Arguments lookup : simpl never.
+Arguments del : simpl never.
+Arguments ins : simpl never.
+Arguments put : simpl never.
+Arguments ptest : simpl never.
+Arguments pscan : simpl never.
+Arguments memZ : simpl never.
+Arguments alive : simpl never.
+Arguments next_key : simpl never.
+Arguments first_key : simpl never.
+Arguments new_arg : simpl never.
+Arguments dst_slot : simpl never.
+Arguments is_rem : simpl never.
+Arguments fault_evs : simpl never.
+Arguments getslot : simpl never.
+Arguments setslot : simpl never.
+Arguments replay : simpl never.
+Arguments legal : simpl never.
+
+Ltac step_cases Hs :=
+  unfold tstep, tstep_gen, set_hf, slot in Hs; cbn [at_ prog slots held] in Hs;
+  repeat match type of Hs with
+         | context [match ?x with _ => _ end] => destruct x eqn:?; cbn [at_ prog slots held] in Hs
+         | context [if ?x then _ else _] => destruct x eqn:?; cbn [at_ prog slots held] in Hs
+         end;
+  try discriminate; inversion Hs; subst; clear Hs.
+
+Lemma Inv_init th progs : Inv (gl (init th progs)) (thr (init th progs)).
+Proof.
+  assert (P : forall u, lof (map (fun p => Loc p Idle (None, None) None) progs) u = dummy \/
+                        exists p, lof (map (fun p => Loc p Idle (None, None) None) progs) u = Loc p Idle (None, None) None).
+  { intros u. unfold lof. destruct (nth_error progs u) as [p|] eqn:E.
+    - right. exists p. apply nth_error_nth. rewrite nth_error_map, E. reflexivity.
+    - left. apply nth_overflow. rewrite map_length. apply nth_error_None. exact E. }
+  assert (Q : forall u, pcof (map (fun p => Loc p Idle (None, None) None) progs) u = Idle /\
+                        held (lof (map (fun p => Loc p Idle (None, None) None) progs) u) = None).
+  { intros u. unfold pcof. destruct (P u) as [->|[p ->]]; auto. }
+  unfold init; cbn [gl thr]. constructor; cbn [omap tmap mtx heap calls throws faulted log]; intros;
+    try (destruct (Q u) as [Q1 Q2]; rewrite ?Q1, ?Q2 in * ); cbn in *; try discriminate; auto.
+  - assert (rc_of [] id = 0%nat) as -> by (destruct id as [|[|i]]; reflexivity).
+    clear. induction progs as [|p r IH]; simpl; auto.
+  - exact I.
+Qed.
+
+Lemma apply_sop_sorted o a om tm om' tm' r tch : sorted om -> sorted tm ->
+  apply_sop o a om tm = (om', tm', r, tch) -> sorted om' /\ sorted tm'.
+Proof.
+  intros Ho Ht H. unfold apply_sop in H.
+  destruct o; repeat match type of H with context [match ?x with _ => _ end] => destruct x end;
+    inversion H; subst; split; auto using sorted_ins, sorted_del, sorted_put.
+Qed.
+
+Lemma sop_rc_keep o a r tch h h' ok keep : sop_rc o a r tch h = (h', ok, keep) -> dst_slot (OS o) = None -> keep = None.
+Proof.
+  unfold sop_rc, dst_slot. intros H D.
+  destruct o; try discriminate;
+    repeat match type of H with context [match ?x with _ => _ end] => destruct x end; inversion H; reflexivity.
+Qed.
+Lemma not_rem_dst o : is_rem o = false -> dst_slot (OP o) <> None.
+Proof. destruct o; cbn; intros H; discriminate. Qed.
+
+(* ---------- mutual exclusion, shape of the in-flight pointer, sortedness ---------- *)
+Lemma step_basic g ls t c l g' l' es :
+  Inv g ls -> nth_error ls t = Some l -> tstep t c g l = Some (g', l', es) ->
+  (forall u, holds (pcof (upd ls t l') u) = true -> mtx g' = Some u) /\
+  (forall a, mtx g' = Some a -> holds (pcof (upd ls t l') a) = true) /\
+  (forall u, held_ok (pcof (upd ls t l') u) (held (lof (upd ls t l') u)) = true) /\
+  sorted (omap g') /\ sorted (tmap g') /\ throws g' = throws g.
+Proof.
+  intros HI Hl Hs.
+  pose proof (I_owner _ _ HI) as HO. pose proof (I_held _ _ HI) as HH. pose proof (I_hs _ _ HI) as HS.
+  pose proof (I_so _ _ HI) as Hso. pose proof (I_st _ _ HI) as Hst.
+  pose proof (pcof_at _ _ _ Hl) as Hp. pose proof (lof_at _ _ _ Hl) as Hlf.
+  destruct l as [pr p sl hd]. cbn [at_] in Hp.
+  step_cases Hs; cbn [omap tmap mtx throws at_ held].
+  all: try match goal with H : apply_sop _ _ _ _ = _ |- _ => destruct (apply_sop_sorted _ _ _ _ _ _ _ _ Hso Hst H) end.
+  all: refine (conj _ (conj _ (conj _ (conj _ (conj _ eq_refl))))); auto using sorted_del.
+  all: try (intros u; rewrite ?(pcof_upd _ _ _ _ _ Hl), ?(lof_upd _ _ _ _ _ Hl); cbn [at_ held];
+            pose proof (HO t) as HOt; pose proof (HH t) as HHt; pose proof (HS t) as HSt;
+            pose proof (HO u) as HOu; pose proof (HH u) as HHu; pose proof (HS u) as HSu;
+            rewrite ?Hlf in *; cbn [held] in *;
+            destruct (Nat.eqb_spec u t) as [->|Hne]; rewrite ?Hp in *; cbn in *;
+            repeat match goal with H : ?x = _ |- context [?x] => rewrite H end;
+            intros; intuition (discriminate || congruence || eauto); fail).
+  all: intros u; rewrite (pcof_upd _ _ _ _ _ Hl), (lof_upd _ _ _ _ _ Hl); destruct (Nat.eqb_spec u t) as [->|Hne]; [|apply HS];
+       cbn [at_ held held_ok]; pose proof (HS t) as HSt; rewrite Hp, Hlf in HSt; cbn [held held_ok] in HSt.
+  all: try match goal with |- context [dst_slot ?x] => destruct (dst_slot x) eqn:D; [reflexivity|] end.
+  all: try exact HSt.
+  - match goal with H : sop_rc _ _ _ _ _ = _ |- _ => rewrite (sop_rc_keep _ _ _ _ _ _ _ _ H D) end. reflexivity.
+  - exfalso. eapply not_rem_dst; eauto.
+  - match goal with H : dst_slot _ = None |- _ => rewrite H in HSt end. exact HSt.
+Qed.
+
+(* ---------- reference counts: local accounting of one step ---------- *)
+Lemma rc_dec_spec h id h' ok : (0 < rc_of h id)%nat -> rc_dec h id = (h', ok) ->
+  ok = true /\ forall id', rc_of h id' = (rc_of h' id' + (if Nat.eqb id' id then 1 else 0))%nat.
+Proof.
+  intros Hp H. destruct (rc_dec_alive _ _ Hp) as [h'' E]. rewrite E in H. inversion H; subst. split; [reflexivity|].
+  intros id'. rewrite (rc_dec_ok _ _ _ E id'). destruct (Nat.eqb id' id); lia.
+Qed.
+Lemma rc_inc_spec h id h' ok : (0 < rc_of h id)%nat -> rc_inc h id = (h', ok) ->
+  ok = true /\ forall id', rc_of h' id' = (rc_of h id' + (if Nat.eqb id' id then 1 else 0))%nat.
+Proof.
+  intros Hp H. destruct (rc_inc_alive _ _ Hp) as [h'' E]. rewrite E in H. inversion H; subst. split; [reflexivity|].
+  intros id'. rewrite (rc_inc_ok _ _ _ E id'). destruct (Nat.eqb_spec id' id) as [->|]; lia.
+Qed.
+Lemma cnt_opt_some id q : cnt_opt id (Some q) = if Nat.eqb id (pid q) then 1%nat else 0%nat.
+Proof. cbn. rewrite Nat.eqb_sym. reflexivity. Qed.
+Lemma dec_opt_spec h p h' ok : (forall q, p = Some q -> (0 < rc_of h (pid q))%nat) -> dec_opt h p = (h', ok) ->
+  ok = true /\ forall id, rc_of h id = (rc_of h' id + cnt_opt id p)%nat.
+Proof.
+  unfold dec_opt. destruct p as [q|]; intros Hp H.
+  - destruct (rc_dec_spec _ _ _ _ (Hp q eq_refl) H) as [-> E]. split; [reflexivity|].
+    intros id. rewrite cnt_opt_some. apply E.
+  - inversion H; subst. split; [reflexivity|]. intros; cbn; lia.
+Qed.
+Lemma inc_opt_spec h p h' ok : (forall q, p = Some q -> (0 < rc_of h (pid q))%nat) -> inc_opt h p = (h', ok) ->
+  ok = true /\ forall id, rc_of h' id = (rc_of h id + cnt_opt id p)%nat.
+Proof.
+  unfold inc_opt. destruct p as [q|]; intros Hp H.
+  - destruct (rc_inc_spec _ _ _ _ (Hp q eq_refl) H) as [-> E]. split; [reflexivity|].
+    intros id. rewrite cnt_opt_some. apply E.
+  - inversion H; subst. split; [reflexivity|]. intros; cbn; lia.
+Qed.
+Lemma cnt_opt_self q : cnt_opt (pid q) (Some q) = 1%nat.
+Proof. cbn. rewrite Nat.eqb_refl. reflexivity. Qed.
+
+Lemma sop_local o hd om tm om' tm' r tch h h' ok keep :
+  held_ok (SLock o) hd = true ->
+  apply_sop o (match hd with Some p => p | None => null_ptr end) om tm = (om', tm', r, tch) ->
+  sop_rc o (match hd with Some p => p | None => null_ptr end) r tch h = (h', ok, keep) ->
+  (forall id, (cnt_o id om + cnt_opt id hd <= rc_of h id)%nat) ->
+  ok = true /\
+  forall id, (rc_of h' id + cnt_o id om + cnt_opt id hd = rc_of h id + cnt_o id om' + cnt_opt id keep)%nat.
+Proof.
+  intros Hh Ha Hr Hle.
+  assert (Hin : forall k p, lookup k om = Some p -> (0 < rc_of h (pid p))%nat).
+  { intros k p E. pose proof (cnt_lookup _ _ _ E). specialize (Hle (pid p)). lia. }
+  unfold apply_sop in Ha. unfold sop_rc in Hr. unfold held_ok in Hh.
+  destruct o; cbn [new_arg] in Hh; unfold new_arg in Hh; destruct hd as [q|]; try discriminate; clear Hh.
+  - (* Add *)
+    destruct (lookup n om) eqn:E; inversion Ha; subst; clear Ha; cbn [Z.eqb Pos.eqb] in Hr.
+    + destruct (rc_dec h (pid q)) as [h1 ok1] eqn:D. inversion Hr; subst; clear Hr.
+      assert (0 < rc_of h (pid q))%nat as Hp by (specialize (Hle (pid q)); rewrite cnt_opt_self in Hle; lia).
+      destruct (rc_dec_spec _ _ _ _ Hp D) as [-> Hd]. split; [reflexivity|].
+      intros id. rewrite (Hd id), cnt_opt_some. cbn [cnt_opt]. lia.
+    + inversion Hr; subst; clear Hr. split; [reflexivity|]. intros id. rewrite (cnt_ins id _ q _ E). cbn [cnt_opt]. lia.
+  - (* AddT *)
+    destruct (lookup n om) eqn:E; inversion Ha; subst; clear Ha; cbn [Z.eqb Pos.eqb] in Hr.
+    + destruct (rc_dec h (pid q)) as [h1 ok1] eqn:D. inversion Hr; subst; clear Hr.
+      assert (0 < rc_of h (pid q))%nat as Hp by (specialize (Hle (pid q)); rewrite cnt_opt_self in Hle; lia).
+      destruct (rc_dec_spec _ _ _ _ Hp D) as [-> Hd]. split; [reflexivity|].
+      intros id. rewrite (Hd id), cnt_opt_some. cbn [cnt_opt]. lia.
+    + inversion Hr; subst; clear Hr. split; [reflexivity|]. intros id. rewrite (cnt_ins id _ q _ E). cbn [cnt_opt]. lia.
+  - (* AddType *) inversion Ha; subst. inversion Hr; subst. split; [reflexivity|]. intros; lia.
+  - (* RemName *)
+    destruct (lookup n om) as [p|] eqn:E; inversion Ha; subst; clear Ha.
+    + destruct (dec_opt h (Some p)) as [h1 ok1] eqn:D. inversion Hr; subst; clear Hr.
+      destruct (dec_opt_spec _ _ _ _ (fun q0 Eq => Hin n q0 (eq_trans E Eq)) D) as [-> Hd]. split; [reflexivity|].
+      intros id. rewrite (Hd id). pose proof (cnt_del id _ _ _ E). cbn [cnt_opt] in *. lia.
+    + cbn in Hr. inversion Hr; subst. split; [reflexivity|]. intros; lia.
+  - (* Copy *)
+    destruct (lookup a om) as [p|] eqn:E; [destruct (lookup b om) eqn:E2|]; inversion Ha; subst; clear Ha.
+    + cbn in Hr. inversion Hr; subst. split; [reflexivity|]. intros; lia.
+    + destruct (inc_opt h (Some p)) as [h1 ok1] eqn:D. inversion Hr; subst; clear Hr.
+      destruct (inc_opt_spec _ _ _ _ (fun q0 Eq => Hin a q0 (eq_trans E Eq)) D) as [-> Hd]. split; [reflexivity|].
+      intros id. rewrite (Hd id), (cnt_ins id _ p _ E2). cbn [cnt_opt]. lia.
+    + cbn in Hr. inversion Hr; subst. split; [reflexivity|]. intros; lia.
+  - (* FindName *)
+    destruct (lookup n om) as [p|] eqn:E; inversion Ha; subst; clear Ha.
+    + destruct (inc_opt h (Some p)) as [h1 ok1] eqn:D. inversion Hr; subst; clear Hr.
+      destruct (inc_opt_spec _ _ _ _ (fun q0 Eq => Hin n q0 (eq_trans E Eq)) D) as [-> Hd]. split; [reflexivity|].
+      intros id. rewrite (Hd id). cbn [cnt_opt]. lia.
+    + cbn in Hr. inversion Hr; subst. split; [reflexivity|]. intros; cbn; lia.
+  - inversion Ha; subst. inversion Hr; subst. split; [reflexivity|]. intros; lia.
+  - inversion Ha; subst. inversion Hr; subst. split; [reflexivity|]. intros; lia.
+  - inversion Ha; subst. inversion Hr; subst. split; [reflexivity|]. intros; lia.
+Qed.
+
+Lemma rc_frame (ls : list loc) t l l' h h' om om' :
+  nth_error ls t = Some l ->
+  (forall id, rc_of h id = (cnt_o id om + list_sum (map (cnt_loc id) ls))%nat) ->
+  (forall id, (rc_of h' id + cnt_o id om + cnt_loc id l = rc_of h id + cnt_o id om' + cnt_loc id l')%nat) ->
+  forall id, rc_of h' id = (cnt_o id om' + list_sum (map (cnt_loc id) (upd ls t l')))%nat.
+Proof.
+  intros Hl H1 H2 id. pose proof (sum_upd (cnt_loc id) ls t l l' Hl). specialize (H1 id). specialize (H2 id). lia.
+Qed.
+Lemma cnt_setslot id s x sl :
+  (cnt_opt id (fst (setslot s x sl)) + cnt_opt id (snd (setslot s x sl)) + cnt_opt id (getslot s sl) =
+   cnt_opt id (fst sl) + cnt_opt id (snd sl) + cnt_opt id x)%nat.
+Proof. destruct s, sl; unfold setslot, getslot; cbn [fst snd]; lia. Qed.
+Lemma cnt_getslot id s sl : (cnt_opt id (getslot s sl) <= cnt_opt id (fst sl) + cnt_opt id (snd sl))%nat.
+Proof. destruct s, sl; unfold getslot; cbn [fst snd]; lia. Qed.
+Lemma alive_pos h p : (0 < rc_of h (pid p))%nat -> alive h p = true.
+Proof. unfold alive. intros H. destruct (Nat.eqb_spec (rc_of h (pid p)) 0); [lia|reflexivity]. Qed.
+
+Lemma call_valid g ls u o k : Inv g ls -> pcof ls u = Call o k ->
+  exists pre p suf, omap g = pre ++ (k, p) :: suf /\ lookup k (omap g) = Some p /\ next_key k (omap g) = first_key suf.
+Proof.
+  intros HI Hp. pose proof (I_lin _ _ HI u) as HL. rewrite Hp in HL. destruct HL as [_ [_ [pre [p [suf [E _]]]]]].
+  exists pre, p, suf. pose proof (I_so _ _ HI) as Hs. rewrite E in Hs |- *.
+  repeat split; [apply lookup_split|apply next_key_split]; exact Hs.
+Qed.
+
+Lemma step_rc g ls t c l g' l' es :
+  Inv g ls -> nth_error ls t = Some l -> tstep t c g l = Some (g', l', es) ->
+  faulted g' = false /\
+  forall id, rc_of (heap g') id = (cnt_o id (omap g') + list_sum (map (cnt_loc id) (upd ls t l')))%nat.
+Proof.
+  intros HI Hl Hs.
+  pose proof (I_rc _ _ HI) as HR. pose proof (I_nf _ _ HI) as HF.
+  pose proof (I_hs _ _ HI t) as HSt. pose proof (pcof_at _ _ _ Hl) as Hp. rewrite Hp, (lof_at _ _ _ Hl) in HSt.
+  assert (Hle : forall id, (cnt_o id (omap g) + cnt_loc id l <= rc_of (heap g) id)%nat).
+  { intros id. rewrite (HR id). pose proof (sum_ge (cnt_loc id) ls t l Hl). lia. }
+  assert (Hin : forall k p, lookup k (omap g) = Some p -> (0 < rc_of (heap g) (pid p))%nat).
+  { intros k p E. pose proof (cnt_lookup _ _ _ E). specialize (Hle (pid p)). lia. }
+  destruct l as [pr p sl hd]. cbn [at_ held] in *. unfold cnt_loc in Hle. cbn [slots held] in Hle.
+  assert (Hsl : forall s q, getslot s sl = Some q -> (0 < rc_of (heap g) (pid q))%nat).
+  { intros s q E. specialize (Hle (pid q)). pose proof (cnt_getslot (pid q) s sl) as G. rewrite E, cnt_opt_self in G. lia. }
+  step_cases Hs; cbn [faulted heap omap]; rewrite ?HF; cbn [orb].
+  all: try match goal with H : dec_opt _ (getslot ?s _) = (_, _) |- _ =>
+             destruct (dec_opt_spec _ _ _ _ (Hsl s) H) as [-> Hd] end.
+  all: try match goal with H : lookup ?k (omap _) = Some ?q |- _ => pose proof (Hin _ _ H) as Hq; pose proof (alive_pos _ _ Hq) as Hal; rewrite ?Hal end.
+  all: try match goal with H : rc_dec (heap _) (pid ?q) = (_, _) |- _ => destruct (rc_dec_spec _ _ _ _ Hq H) as [-> Hd] end.
+  all: try match goal with H : rc_inc (heap _) (pid ?q) = (_, _) |- _ => destruct (rc_inc_spec _ _ _ _ Hq H) as [-> Hd] end.
+  all: cbn [andb negb orb].
+  all: (split; [try reflexivity | eapply rc_frame; [exact Hl | exact HR | ]; intros id; unfold cnt_loc; cbn [slots held];
+        try (specialize (Hd id)); try lia]).
+  Show.
